@@ -4,10 +4,11 @@ SPEC = {
     "targets": ["Properties/C01.vo", "Run/C01.vo"],
     "theorems": {"Properties.C01": [
         "C01_sound_partial", "C01_rule_sound",
-        "C01_sound_refuted_null_name", "C01_sound_refuted_nameless_group", "C01_sound_refuted_limit_not_int",
+        "C01_fixed_witnesses_blocked",
         "C01_sound_refuted_merge_not_alias", "C01_sound_refuted_tag_kind", "C01_nonvacuous"]},
-    "harness_args": lambda tier: ["C01", "--n", 500 if tier == "quick" else 15000],
-    "search_args": lambda tier: ["C01", "--n", 4000],
+    "harness_args": lambda tier: (["C01", "--n", 500, "--cat", 60, "--stress", 4] if tier == "quick"
+                                  else ["C01", "--n", 15000, "--cat", -1, "--stress", 40]),
+    "search_args": lambda tier: ["C01", "--n", 3000, "--cat", -1, "--stress", 16],
     "level": "proof",
     "trusted_base": [
         "Coq 8.16.1 kernel + VM; no axioms (Print Assumptions: closed under the global context)",
